@@ -256,10 +256,11 @@ func (k Key) String() string {
 		}
 		return fmt.Sprintf("Ctrl+%c", val)
 	case k.Keycode <= unicode.MaxRune:
-		if k.Modifiers&ModCapsLock != 0 && k.Text != "" {
+		if k.Modifiers&ModCapsLock != 0 && k.Text == string(unicode.ToUpper(k.Keycode)) {
 			// Caps lock produced an uppercase character: that is what
-			// a binding for this key looks like. Without text (other
-			// modifiers are held) the binding is on the key itself
+			// a binding for this key looks like. Without such text
+			// (other modifiers are held, or shift undid the caps lock)
+			// the binding is on the key itself
 			buf.WriteRune(unicode.ToUpper(k.Keycode))
 		} else {
 			buf.WriteRune(k.Keycode)
